@@ -720,14 +720,37 @@ def val_py(j):
   return np.asarray(j['d'], F32).reshape(tuple(j['t']))
 
 
-def unflatten_vars(j, frozen=False):
+def unflatten_vars(j, frozen=False, empties=None):
+  """`empties`: paths [col, name, ...] at which an EMPTY dict placeholder is created (nested ones are outside the
+  flat model form)"""
   tree = {c: {} for c in j['cols']}
+  for path in empties or []:
+    d = tree.setdefault(path[0], {})
+    for k in path[1:]:
+      d = d.setdefault(k, {})
   for path, v in j['vars']:
     d = tree
     for k in path[:-1]:
       d = d.setdefault(k, {})
     d[path[-1]] = val_py(v)
   return freeze(tree) if frozen else tree
+
+
+def gen_empty_placeholder(rng, V):
+  """Replaces one collection, or one submodule subtree inside a collection (depth 1-3), by an EMPTY dict placeholder
+  (state not created yet). -> (V', empties, col) or None"""
+  cands = set()
+  for p, _ in V['vars']:
+    for k in range(1, len(p)):
+      cands.add(tuple(p[:k]))
+  for c in V['cols']:
+    cands.add((c,))
+  cands = sorted(c for c in cands if c[0] != 'params' or rng.random() < 0.2)
+  if not cands:
+    return None
+  pre = list(rng.choice(cands))
+  V2 = {'cols': list(V['cols']), 'vars': [kv for kv in V['vars'] if kv[0][:len(pre)] != pre]}
+  return V2, ([pre] if len(pre) > 1 else []), pre[0]
 
 
 def canon_vars(j):
@@ -1425,7 +1448,7 @@ def run_scenario(R, sc):
   rngs = {'params': key} if sc['rngs'] else None
   if sc['kind'] == 'init' and rngs is None:
     rngs = {}
-  V = unflatten_vars(sc['vars'], sc.get('frozen', False)) if sc['kind'] == 'apply' else None
+  V = unflatten_vars(sc['vars'], sc.get('frozen', False), sc.get('empties')) if sc['kind'] == 'apply' else None
   # snapshots
   s_x = x.tobytes()
   s_key = snap_key(key)
@@ -1534,6 +1557,9 @@ def compare_with_model(sc, obs, m):
     if mo['error'] in ('unsupported', 'sowOnLeaf', 'badSlot', 'fuel'):
       return 'skip:' + mo['error']
     names = model_err_names(mo['error'], sc['style'], sc['prog'])
+    if sc.get('empties') and mo['error'] == 'collectionNotFound' and res[0] == 'err' and res[1] in (
+        'ScopeVariableNotFoundError', 'ScopeParamNotFoundError'):
+      return None  # a collection holding only empty placeholder dicts is "non-empty" for the code, empty in the flat form
     if res[0] != 'err':
       return f"model raises {mo['error']}, implementation returned out={res[1]}"
     if names is None or res[1] not in names:
@@ -1542,6 +1568,9 @@ def compare_with_model(sc, obs, m):
   if res[0] == 'err':
     return f"implementation raised {res[1]}, model returns out={mo['out']}"
   _, out, ret, probs = res
+  if sc.get('empties'):
+    # empty placeholder subtrees the program did not fill come back as they were: not part of the flat form
+    probs = [p_ for p_ in probs if p_[0] != 'empty-nested-dict']
   if out != mo['out']:
     return f"output {out} (implementation) vs {mo['out']} (model)"
   if probs:
